@@ -135,7 +135,7 @@ def run(report, tier, seed):
     def make_case():
         """returns (label, thunk, varies) — varies: the option keys the case may legitimately depend on"""
         kind = rng.choice(["construct", "construct_mixed", "division", "division", "binary", "binary", "power", "derivative", "derivative", "gradient", "hessian", "call", "call_partial",
-                           "compute_call", "narrow_product", "narrow_product",
+                           "compute_call", "narrow_product", "narrow_product", "derivative_call", "derivative_call",
                            "index", "align", "pickle", "catalogue", "catalogue", "order", "text", "todict", "set_dimensions"])
         if kind == "construct":
             D = rng.randint(1, 3)
@@ -204,6 +204,21 @@ def run(report, tier, seed):
                 vs = [rng.choice(p.names) if rng.random() < 0.6 else rng.randrange(len(p.names)) for _ in range(rng.choice([1, 2, 2, 3]))]
                 return kind, (lambda: numpoly.derivative(p, *vs)), set(), None
             return kind, (lambda: getattr(numpoly, kind)(p)), set(), None
+        if kind == "derivative_call":
+            # differentiate under the setting, then EVALUATE the result (under the same setting) at every one of ITS names
+            # with floats beyond 1 in magnitude: a term left in storage that should have been cleaned away (an exponent
+            # wrapped below zero with a zero coefficient) turns the value into nan / OverflowError
+            p = gen.rand_poly(rng, gen.rand_shape(rng, 2), rng.choice([(0,), (0, 1), (1, 2), (0, 1, 2)]), nterms=rng.choice([2, 3, 4]),
+                              maxexp=3, dtype=rng.choice([numpy.int64, numpy.float64]), raw=False)
+            fn = rng.choice(["derivative", "derivative", "gradient", "hessian"])
+            vs = [rng.choice(p.names) if rng.random() < 0.6 else rng.randrange(len(p.names)) for _ in range(rng.choice([1, 1, 2]))]
+            val = rng.choice([2.5, -3.0, numpy.float64(2.5), numpy.array([1.5, -2.5])])
+
+            def thunk(p=p, fn=fn, vs=vs, val=val):
+                d = numpoly.derivative(p, *vs) if fn == "derivative" else getattr(numpoly, fn)(p)
+                out = d(**{nm: val for nm in d.names})
+                return float_snapshot(out) if isinstance(out, numpoly.ndpoly) else snapshot(out)
+            return kind, thunk, set(), None
         if kind == "compute_call":
             # the polynomial is COMPUTED under the setting (terms that cancel stay in storage under retain_coefficients=True)
             # and then evaluated with an argument wider than its coefficients for an indeterminate that only occurs in
